@@ -68,13 +68,23 @@ class Normalizer:
         self.it = interp
         self.o = outcome
         self.rename = rename or (lambda s: s)
+        # call arguments are path specific: take them from this path's own trace (last call per block),
+        # the interpreter-wide table is only a fallback for symbols created before this path started
+        self.ret_info = dict(interp.ret_info)
+        if outcome is not None:
+            for e in outcome.trace:
+                if e[0] == "call":
+                    self.ret_info["ret:%d" % e[1]] = (e[2], e[3])
+
+    def A(self, name):
+        return {(self.rename(name),): 1}
 
     def path_atom(self, p):
         # expand call-result roots:  *{ret:23}  ->  *{callee(args)}
         if p and p[0][0] == "S" and isinstance(p[0][1], str):
             name = p[0][1]
             base = name[2:] if name.startswith("m:") else name
-            for k, (callee, args) in self.it.ret_info.items():
+            for k, (callee, args) in self.ret_info.items():
                 if base == k or base.startswith(k + "@") or base.startswith(k + "."):
                     return "*{%s%s}%s" % (self.call_atom(callee, args), base[len(k):], absint.pstr(p[1:]))
         return self.rename(absint.pstr(p))
@@ -90,13 +100,13 @@ class Normalizer:
             return "&" + self.path_atom(v[1])
         if v[0] == "sym":
             name = v[1]
-            if name in self.it.ret_info:
-                callee, args = self.it.ret_info[name]
+            if name in self.ret_info:
+                callee, args = self.ret_info[name]
                 return self.call_atom(callee, args)
             # payload / projection of a call result:  ret:7@Some.0.0
-            for k in self.it.ret_info:
+            for k in self.ret_info:
                 if name.startswith(k + "@") or name.startswith(k + "."):
-                    callee, args = self.it.ret_info[k]
+                    callee, args = self.ret_info[k]
                     return self.call_atom(callee, args) + name[len(k):]
             if name.startswith("m:"):
                 return self.rename(name[2:])
@@ -127,11 +137,11 @@ class Normalizer:
             if op == "Mul":
                 return mul(fa, fb)
             if op == "Shl" and is_const_form(fa) and fa.get((), 0) == 1:
-                return atom("(1<<%s)" % show(fb))
-            return atom("%s(%s, %s)" % (op, show(fa), show(fb)))
+                return self.A("(1<<%s)" % show(fb))
+            return self.A("%s(%s, %s)" % (op, show(fa), show(fb)))
         if k == "sym":
             name = v[1]
-            info = self.it.ret_info.get(name)
+            info = self.ret_info.get(name)
             if info:
                 callee, args = info
                 if callee:
@@ -141,15 +151,15 @@ class Normalizer:
                         return self.form(args[0])
                     for pat, fa in FUNC_ATOMS.items():
                         if callee.endswith(pat):
-                            return atom("%s(%s)" % (fa, ", ".join(show(self.form(a)) for a in args)))
-                return atom(self.call_atom(callee, args))
+                            return self.A("%s(%s)" % (fa, ", ".join(show(self.form(a)) for a in args)))
+                return self.A(self.call_atom(callee, args))
             # unwrap of a transparent try_from etc.
             if name.startswith("unwrap:") or name.startswith("tryok:"):
                 src = self.it.unwrap_src.get(name) if hasattr(self.it, "unwrap_src") else None
                 if src is not None:
                     return self.form(src)
-            return atom(self.value_atom(v))
-        return atom(self.value_atom(v))
+            return self.A(self.value_atom(v))
+        return self.A(self.value_atom(v))
 
 
 def equal(f1, f2):
